@@ -94,7 +94,10 @@ def run_e2(chk, src, name, timeout=60, harness_args=(), support=C.FEAT_MIN_SRCS,
             else:
                 cex.append((c, {'label': lab, 'status': 'fact', 'detail': st, 'assign': {}}))
         ntriv = 0
+        dvar = {e['label']: e['deriv'] for e in c['eqs'] if e.get('deriv')}
         for r1 in res:
+            if r1['label'] in dvar:
+                r1['deriv'] = dvar[r1['label']]
             oname = cname + '#' + r1['label']
             if r1['status'] == 'unsat':
                 chk.ok(oname, queries=r1['queries'], solver_s=r1['solver_s'],
@@ -131,6 +134,28 @@ def run_e2(chk, src, name, timeout=60, harness_args=(), support=C.FEAT_MIN_SRCS,
             with open(af, 'w') as f:
                 for k, v in r1.get('assign', {}).items():
                     f.write('%s %.17g\n' % (k, v))
+            if r1.get('deriv'):
+                # derivative obligation: central finite difference of f on the double build at var -h, var, var +h
+                var = r1['deriv']; asg = dict(r1.get('assign', {})); v0 = asg.get(var, 0.0); h = 1e-5 * max(1.0, abs(v0)); vals = {}
+                for tag, vv in (('m', v0 - h), ('c', v0), ('p', v0 + h)):
+                    asg[var] = vv
+                    with open(af, 'w') as f:
+                        for k, v in asg.items():
+                            f.write('%s %.17g\n' % (k, v))
+                    rc, so, se, w = C.run([rbin, '--replay', c.get('replay_case', c['name']), af] + list(harness_args), timeout=600)
+                    for l in so.split('\n'):
+                        if l.startswith('DEQVAL') and ('label=' + r1['label'] + '\t') in l:
+                            mm = re.search(r'f=(\S+)\tg=(\S+)', l); vals[tag] = (float(mm.group(1)), float(mm.group(2)))
+                if len(vals) == 3:
+                    fd = (vals['p'][0] - vals['m'][0]) / (2 * h); g = vals['c'][1]
+                    if abs(fd - g) > 1e-4 * max(1.0, abs(fd), abs(g)):
+                        chk.violation(sig if not sig_prefix else sig_prefix(sig), '%s: returned derivative %.10g but central finite difference of the returned value w.r.t. %s is %.10g (double build); %s' % (sig, g, var, fd, r1.get('how', '')),
+                                      {'harness': src, 'case': c['name'], 'label': r1['label'], 'assignment': r1.get('assign', {}), 'finite_difference': fd, 'returned': g})
+                    else:
+                        chk.error('%s: derivative counterexample did not reproduce by finite differences (fd=%g, returned=%g)' % (sig, fd, g))
+                else:
+                    chk.error('%s: finite-difference replay produced no values' % sig)
+                continue
             rc, so, se, w = C.run([rbin, '--replay', c.get('replay_case', c['name']), af] + list(harness_args), timeout=600)
             fails = [l for l in so.split('\n') if l.startswith('REPLAY-FAIL')]
             hit = [l for l in fails if ('label=' + r1['label']) in l or ('fact=' + r1['label']) in l]
